@@ -112,7 +112,7 @@ PROPS = {
     "C20": dict(family="core",
                 mc=dict(kinds=["join", "sub", "unsub", "pub", "leave"], inv=MC_PUBSUB + ["C20_Retention"],
                         quick=dict(steps=5, nsess=2), thorough=dict(steps=6, nsess=3), mode="hist"),
-                gen=[dict(bag="hist", depth=18, quick=220, thorough=3000, mode="hist")],
+                gen=[dict(bag="hist", depth=18, quick=320, thorough=3000, mode="hist")],
                 classes=["metaapi", "rpcreply", "pubsub"]),
     "C07": dict(family="core",
                 conc=dict(inv=["NoPanic", "Bounded"], props=["BrokerNeverWedged", "CloseReturns"]),
